@@ -117,10 +117,15 @@ var hC05Dups = []hC05Dup{
 	{id: "local-number", a: "define i32 @f(i32 %x) {\nentry:\n\t%", mid: " = add i32 %x, 1\n\t%", b: " = add i32 %x, 2\n\tret i32 %x\n}\n", dig: true, seq: true},
 	{id: "global-alias", a: "@t = global i32 0\n@", mid: " = global i32 1\n@", b: " = alias i32, i32* @t\n"},
 	{id: "func-ifunc", a: "declare void ()* @r()\ndeclare void @", mid: "()\n@", b: " = ifunc void (), void ()* ()* @r\n"},
+	// parameters of a declaration (no body whose locals would be indexed)
+	{id: "param-decl", a: "declare void @f(i32 %", mid: ", i32 %", b: ")\n"},
+	// a body after an opaque definition of the same type (known finding: the
+	// translator deliberately lets a body replace an earlier `opaque`)
+	{id: "type-after-opaque", a: "%", mid: " = type opaque\n%", b: " = type { i32 }\n"},
 }
 
-var hC05DupIDs = [...]string{"C05.global.duplicate-is-error", "C05.global-func.duplicate-is-error", "C05.type.duplicate-is-error", "C05.comdat.duplicate-is-error", "C05.local.duplicate-is-error", "C05.param.duplicate-is-error", "C05.label.duplicate-is-error", "C05.metadata.duplicate-is-error", "C05.param-label.duplicate-is-error", "C05.label-inst.duplicate-is-error", "C05.param-inst.duplicate-is-error", "C05.inst-invoke.duplicate-is-error", "C05.global-number.duplicate-is-error", "C05.func-number.duplicate-is-error", "C05.local-number.duplicate-is-error", "C05.global-alias.duplicate-is-error", "C05.func-ifunc.duplicate-is-error"}
-var hC05DistinctIDs = [...]string{"C05.global.distinct-is-accepted", "C05.global-func.distinct-is-accepted", "C05.type.distinct-is-accepted", "C05.comdat.distinct-is-accepted", "C05.local.distinct-is-accepted", "C05.param.distinct-is-accepted", "C05.label.distinct-is-accepted", "C05.metadata.distinct-is-accepted", "C05.param-label.distinct-is-accepted", "C05.label-inst.distinct-is-accepted", "C05.param-inst.distinct-is-accepted", "C05.inst-invoke.distinct-is-accepted", "C05.global-number.distinct-is-accepted", "C05.func-number.distinct-is-accepted", "C05.local-number.distinct-is-accepted", "C05.global-alias.distinct-is-accepted", "C05.func-ifunc.distinct-is-accepted"}
+var hC05DupIDs = [...]string{"C05.global.duplicate-is-error", "C05.global-func.duplicate-is-error", "C05.type.duplicate-is-error", "C05.comdat.duplicate-is-error", "C05.local.duplicate-is-error", "C05.param.duplicate-is-error", "C05.label.duplicate-is-error", "C05.metadata.duplicate-is-error", "C05.param-label.duplicate-is-error", "C05.label-inst.duplicate-is-error", "C05.param-inst.duplicate-is-error", "C05.inst-invoke.duplicate-is-error", "C05.global-number.duplicate-is-error", "C05.func-number.duplicate-is-error", "C05.local-number.duplicate-is-error", "C05.global-alias.duplicate-is-error", "C05.func-ifunc.duplicate-is-error", "C05.param-decl.duplicate-is-error", "C05.type-after-opaque.duplicate-is-error"}
+var hC05DistinctIDs = [...]string{"C05.global.distinct-is-accepted", "C05.global-func.distinct-is-accepted", "C05.type.distinct-is-accepted", "C05.comdat.distinct-is-accepted", "C05.local.distinct-is-accepted", "C05.param.distinct-is-accepted", "C05.label.distinct-is-accepted", "C05.metadata.distinct-is-accepted", "C05.param-label.distinct-is-accepted", "C05.label-inst.distinct-is-accepted", "C05.param-inst.distinct-is-accepted", "C05.inst-invoke.distinct-is-accepted", "C05.global-number.distinct-is-accepted", "C05.func-number.distinct-is-accepted", "C05.local-number.distinct-is-accepted", "C05.global-alias.distinct-is-accepted", "C05.func-ifunc.distinct-is-accepted", "C05.param-decl.distinct-is-accepted", "C05.type-after-opaque.distinct-is-accepted"}
 
 // VfC05_Duplicate
 //
@@ -143,6 +148,7 @@ func VfC05_Duplicate() {
 	vfReach("C05.duplicate")
 	vfObserveStr("src", src)
 	same := n1 == n2
+	vfKnown("C05.type-redefined-after-opaque", vfAnd(t.id == "type-after-opaque", same))
 	vfAssert(hC05DupIDs[k], vfImp(same, vfAnd(err != nil, m == nil)))
 	vfAssert(hC05DistinctIDs[k], vfImp(vfNot(same), vfAnd(err == nil, m != nil)))
 }
